@@ -66,7 +66,7 @@ def main():
     prop = load_prop(pid)
 
     # ---- 1. build + proofs
-    b = C.build_all(race=getattr(prop, "needs_race", False) and tier == "thorough") if not a.no_build else None
+    b = C.build_all(race=getattr(prop, "needs_race", False)) if not a.no_build else None
     proof_problems = []
     pf = C.check_props_file(pid)
     if b is not None:
